@@ -278,6 +278,26 @@ type DotClash struct {
 	A      Ab    ` + "`parquet:\"a\"`" + `
 }
 `},
+		// p14: nine optional ancestors: definition levels 0..9 need four bits (the only width the
+		// shallower shapes never reach)
+		{Name: "p14", Type: "Chain", Code: `
+type H struct {
+	V *int64
+	W []int32
+}
+type G struct{ H *H }
+type F struct{ G *G }
+type E struct{ F *F }
+type D struct{ E *E }
+type C struct{ D *D }
+type B struct{ C *C }
+type A struct{ B *B }
+
+type Chain struct {
+	ID int32
+	A  *A
+}
+`},
 		{Name: "p8", Type: "Wide", Code: `
 type Wide struct {
 	S1 string
